@@ -414,12 +414,21 @@ func (w *world) applyInner(e simEvent) error {
 		chv.(chan time.Time) <- time.Now()
 		return n.stepLoop(nil)
 	case "F":
+		if !(n.fsmGate.isParked() && len(n.r.fsm.ch) > 0) {
+			return fmt.Errorf("%w: %v: the FSM goroutine of n%d has nothing queued", errSimHarness, e, n.id)
+		}
 		n.fsmGate.release(true)
 		return w.waitQuiet()
 	case "SS", "SW":
+		if !n.snapGate.isParked() || (e.K == "SS" && n.snapAt != "snap.start") || (e.K == "SW" && !(n.snapAt == "snap.enqueued" && n.snapTask != nil && isClosed(n.snapTask.done))) {
+			return fmt.Errorf("%w: %v: the snapshot goroutine of n%d is not at that point (%q)", errSimHarness, e, n.id, n.snapAt)
+		}
 		n.snapGate.release(true)
 		return w.waitQuiet()
 	case "ST":
+		if !n.snapGate.isParked() || n.snapAt != "snap.finished" {
+			return fmt.Errorf("%w: %v: the snapshot goroutine of n%d is not at that point (%q)", errSimHarness, e, n.id, n.snapAt)
+		}
 		n.snapAt = ""
 		n.snapGate.release(false)
 		return n.stepLoop(nil)
